@@ -102,6 +102,20 @@ let proto file =
     | "asset" :: k :: a :: o :: _ -> Printf.sprintf "asset %s %s %s" k a o
     | "newhost" :: _ -> "newhost"
     | _ -> String.concat " " ws in
+  (* uuids the harness could not name (entity gone before it was observed): bound to the model's
+     handle the first time a message with the same shape is at the matching position *)
+  let alias : (string, string) Hashtbl.t = Hashtbl.create 8 in
+  let is_unknown w = String.length w = 9 && w.[0] = 'u' in
+  let subst_alias (m : string) : string =
+    String.concat " " (List.map (fun w -> if is_unknown w then (try Hashtbl.find alias w with Not_found -> w) else w) (String.split_on_char ' ' m)) in
+  let try_bind (real : string) (model : string) : bool =
+    let rw = String.split_on_char ' ' real and mw = String.split_on_char ' ' model in
+    if List.length rw <> List.length mw then false
+    else begin
+      let ok = List.for_all2 (fun r m -> r = m || (is_unknown r && not (Hashtbl.mem alias r))) rw mw in
+      if ok then List.iter2 (fun r m -> if r <> m then Hashtbl.replace alias r m) rw mw;
+      ok
+    end in
   let i = ref 0 in
   let where () = Printf.sprintf "line %d" (!i + 1) in
   while !i < nlines do
@@ -202,8 +216,19 @@ let proto file =
              let pr = get pi in
              let inbox = inbox_of pr (n_of_int src) in
              let strs = List.map (msg_string pr) inbox in
+             let m = subst_alias m in
              let rec find_from idx l = match l with [] -> -1 | x :: r -> if idx >= k && x = m then idx else find_from (idx + 1) r in
              let pos = find_from 0 strs in
+             let pos, m =
+               if pos >= 0 then (pos, m)
+               else begin
+                 (* an unnamed uuid: bind it to the first not yet consumed model message of the same shape *)
+                 let rec bind idx l = match l with
+                   | [] -> -1
+                   | x :: r -> if idx >= k && try_bind m x then idx else bind (idx + 1) r in
+                 let p = bind 0 strs in
+                 (p, subst_alias m)
+               end in
              incr checked;
              if pos < 0 then
                diff "%s frame of peer %d: real received from %s `%s`, model link holds [%s]" (where ()) pi from m (String.concat " | " strs)
@@ -246,7 +271,7 @@ let proto file =
            let dash l = if l = [] then "-" else String.concat "," l in
            let mtrk = Printf.sprintf "TRK %d u2e=%s e2u=%d queue=%d ctok=%s htok=%d promo=%d" pi (dash u2e)
                (List.length (e2u_list pr)) (List.length pr.t_queue) (dash ctok) (List.length pr.t_htok) (if pr.t_promo then 1 else 0) in
-           (match find "TRK" with l :: _ -> incr checked; if l <> mtrk then diff "%s: real `%s` model `%s`" (where ()) l mtrk | [] -> ());
+           (match List.map subst_alias (find "TRK") with l :: _ -> incr checked; if l <> mtrk then diff "%s: real `%s` model `%s`" (where ()) l mtrk | [] -> ());
            (* world *)
            let value_string v =
              match v with
